@@ -335,6 +335,11 @@ func (l *log) GetByTime(start time.Time) (message.Message, error) {
 
 		switch msg, err := rdr.GetByTime(ts, tctx); err {
 		case nil:
+			if i > 0 && msg.Offset == rdr.GetOffset() {
+				// first message of the segment: an equal time may end the previous
+				// segment, which then reports the earlier message (or after end)
+				continue
+			}
 			return msg, nil
 		case index.ErrTimeIndexEmpty:
 			// empty head segment, try the rest
